@@ -1,6 +1,8 @@
 package main
 
 import (
+	"go/token"
+	"go/types"
 	"fmt"
 	"regexp"
 	"strings"
@@ -94,6 +96,99 @@ func runC01(c *Ctx) {
 	c.Min("ephemeral-guard", len(eph))
 	c01ValueSources(c, ge)
 	c01TaxPairing(c, ge)
+	c01SiafundBound(c, ge)
+}
+
+// c01SiafundBound: siafund values are plain uint64s and the balance check adds them with "+": the sums are exact only
+// because the overflow pre-check bounds EVERY output by the number of siafunds in existence. Decided on the truth
+// conditions of the rejecting overflow flag: one of the ways it becomes true is exactly "this output's value exceeds
+// SiafundCount()" — a bound on a running sum (which itself wraps) does not count.
+func c01SiafundBound(c *Ctx, ge *GuardEngine) {
+	const rule = "siafund-bound"
+	for _, e := range []struct{ id, entry, txn string }{{"v1", VT, "%T1%"}, {"v2", V2T, "%T2%"}} {
+		ent := c.P.Func(e.entry)
+		if ent == nil {
+			c.Undecided(rule, e.id, e.entry, "entry does not resolve")
+			continue
+		}
+		cmp := pat(e.txn + ".SiafundOutputs[*].Value > call (consensus.State).SiafundCount(%ST%)")
+		want := mustRe(cmp)
+		inner := mustRe(strings.TrimSuffix(strings.TrimPrefix(cmp, "^"), "$"))
+		found, where, flags := false, "", 0
+		var cands []*ssa.Function
+		for _, b := range ent.Blocks {
+			for _, in := range b.Instrs {
+				if call, ok := in.(*ssa.Call); ok {
+					if g := call.Call.StaticCallee(); g != nil && c.P.InModule(g) && len(g.Blocks) > 0 {
+						cands = append(cands, g)
+					}
+				}
+			}
+		}
+		for _, g := range cands {
+			fi := ge.info(g)
+			env := &Env{params: map[*ssa.Parameter]string{}, freevars: map[*ssa.FreeVar]string{}}
+			// flag cells: a bool local, or a bool field of a local struct; keyed by (allocation, field)
+			type cellKey struct {
+				base  ssa.Value
+				field int
+			}
+			keyOf := func(addr ssa.Value) (cellKey, bool) {
+				pt, isPtr := addr.Type().Underlying().(*types.Pointer)
+				if !isPtr || typeName(pt.Elem()) != "bool" {
+					return cellKey{}, false
+				}
+				switch x := addr.(type) {
+				case *ssa.Alloc:
+					return cellKey{x, -1}, true
+				case *ssa.FieldAddr:
+					if al, isAl := x.X.(*ssa.Alloc); isAl {
+						return cellKey{al, x.Field}, true
+					}
+				}
+				return cellKey{}, false
+			}
+			rejecting := map[cellKey]bool{}
+			var stores []*ssa.Store
+			for _, b := range g.Blocks {
+				for _, in := range b.Instrs {
+					switch x := in.(type) {
+					case *ssa.If:
+						if ld, isLd := x.Cond.(*ssa.UnOp); isLd && ld.Op == token.MUL {
+							if k, ok := keyOf(ld.X); ok && !fi.canAccept[b.Succs[0]] {
+								rejecting[k] = true
+							}
+						}
+					case *ssa.Store:
+						if _, ok := keyOf(x.Addr); ok {
+							stores = append(stores, x)
+						}
+					}
+				}
+			}
+			flags += len(rejecting)
+			for _, st := range stores {
+				k, _ := keyOf(st.Addr)
+				if !rejecting[k] {
+					continue
+				}
+				ge.pv.loadCtx = []ssa.Instruction{st}
+				val := ge.pv.Atom(st.Val, env)
+				ge.pv.loadCtx = nil
+				if inner.MatchString(val) && !strings.Contains(val, " + ") {
+					found, where = true, c.P.Pos(st.Pos())
+				}
+				if val == "const:true" {
+					ctx := ge.condCtx(fi, st.Block(), env)
+					if len(ctx) >= 1 && want.MatchString(ctx[len(ctx)-1]) {
+						found, where = true, c.P.Pos(st.Pos())
+					}
+				}
+			}
+		}
+		c.Check(found, rule, e.id, ifElse(found, where, e.entry), ifElse(found, "every siafund output is bounded by SiafundCount() before the outputs are summed", fmt.Sprintf("no rejecting flag of the pre-checks of %s is set exactly when a single siafund output exceeds SiafundCount() (%d flags examined): the uint64 output sum of the balance check can wrap and mint siafunds", e.entry, flags)))
+	}
+	c.Min(rule, 2)
 }
 
 // creation rows: what every siacoin element is created from
